@@ -35,6 +35,7 @@ StrClauses(e) ==
        F(v.ok = (IF r.ok THEN 1 ELSE 0) /\ (r.ok => (v.p = r.end /\ v.val = v.pre \o r.val)),
          "C06", "string_reader_" \o ToString(v.k))
        \cup F(r.ok /\ v.ok = 1 => v.post = v.val, "C16", "result_changed_by_later_overwrite_" \o ToString(v.k))
+       \cup F(r.ok /\ v.ok = 1 /\ v.k = 5 => v.val = v.pre \o r.val, "C16", "destination_contents_not_followed_by_exactly_the_decoded_bytes")
        : i \in 1..Len(e.v)}
      \cup F(e.unch = 1, "C16", "input_modified")
 
@@ -42,6 +43,7 @@ UnescClauses(e) ==
   LET c == e["in"] IN
   F(WellFormedContent(c) => (e.ok = 1 /\ e.p = Len(c) /\ e.val = e.pre \o DecodeContent(c)), "C06", "unescape_content")
   \cup F(WellFormedContent(c) /\ e.ok = 1 => e.post = e.val, "C16", "unescape_result_changed_by_later_overwrite")
+  \cup F(WellFormedContent(c) /\ e.ok = 1 => e.val = e.pre \o DecodeContent(c), "C16", "unescape_destination_contents_not_followed_by_exactly_the_decoded_bytes")
   \cup F(e.unch = 1, "C16", "input_modified")
 
 \* ---- C13 ----
